@@ -31,7 +31,8 @@ def run(ctx):
     # end to end: real front ends (rows selected by the stream itself, arbitrary DataFrame index) -> collect ->
     # compare row by row with the probe called directly on each window's rows
     import fn_stream as fs
-    e2e = fs.gen_stream("quick", rng, frontends=("pandas", "numpy", "netcdf"), wforms=False)
+    e2e = fs.gen_stream("quick", rng, frontends=("pandas", "numpy", "netcdf", "xarray"), wforms=False)
+    e2e = [c for c in e2e if not fs.xarray_deviates(c)]       # F9: XarrayStream's own window rule (known finding of C05)
     e2e = e2e if tier != "quick" else rng.sample(e2e, min(len(e2e), 250))
     fails = []
     for c in e2e:
@@ -46,7 +47,7 @@ def run(ctx):
         rule="random sequences of 1-3 ContextResults over 0-5 rows: disjoint window layouts (incl. empty, all-covering, "
              "uncovered rows) and 15% overlapping ones, 1-2 streams, 0-2 calls per context over 3 test keys, with and "
              "without axis arrays, list and dict forms; implementation vs faithful model on all, vs the property's "
-             "specification on the well-formed disjoint ones; plus end-to-end runs of the pandas / numpy / netcdf front "
+             "specification on the well-formed disjoint ones; plus end-to-end runs of the pandas / numpy / netcdf / xarray front "
              "ends (random tables, index kinds, windows, contexts) whose collected flags are compared row by row with the "
              "probe called directly on each window's rows. non-trivial = >=2 contexts or raises",
     )
